@@ -94,11 +94,22 @@ func role(e paths.Event, v ssa.Value) string {
 		lo, hi := "", ""
 		if x.Low != nil {
 			lo = role(e, x.Low)
+			if lo == "k0" {
+				lo = ""
+			}
 		}
+		base := role(e, x.X)
 		if x.High != nil {
 			hi = role(e, x.High)
+			// x[a:len(x)] is x[a:]: for make(N) the length is N
+			if strings.HasPrefix(base, "make(") && base == "make("+hi+")" {
+				hi = ""
+			}
+			if hi == "len("+base+")" {
+				hi = ""
+			}
 		}
-		return role(e, x.X) + "[" + lo + ":" + hi + "]"
+		return base + "[" + lo + ":" + hi + "]"
 	case *ssa.Lookup:
 		return role(e, x.X) + "[" + role(e, x.Index) + "]"
 	case *ssa.Index:
@@ -126,11 +137,82 @@ func role(e paths.Event, v ssa.Value) string {
 		}
 		return x.Op.String() + role(e, x.X)
 	case *ssa.BinOp:
+		if (x.Op == token.ADD || x.Op == token.SUB) && isIntType(x.Type()) {
+			return linearRole(e, x)
+		}
 		return "(" + role(e, x.X) + x.Op.String() + role(e, x.Y) + ")"
 	case *ssa.Call:
 		return callRole(e, x)
 	}
 	return "?" + v.Name()
+}
+
+// linearRole prints an integer sum/difference in a canonical form: constants folded, equal atoms cancelled, terms
+// sorted - so that `4 + (L - 4)` and `L` have the same role.
+func linearRole(e paths.Event, v ssa.Value) string {
+	terms := map[string]int64{}
+	var k int64
+	var walk func(v ssa.Value, sign int64, depth int)
+	walk = func(v ssa.Value, sign int64, depth int) {
+		v = e.Resolve(v)
+		if depth < 16 {
+			switch x := v.(type) {
+			case *ssa.Const:
+				if c, ok := constInt(x); ok {
+					k += sign * c
+					return
+				}
+			case *ssa.BinOp:
+				if isIntType(x.Type()) {
+					switch x.Op {
+					case token.ADD:
+						walk(x.X, sign, depth+1)
+						walk(x.Y, sign, depth+1)
+						return
+					case token.SUB:
+						walk(x.X, sign, depth+1)
+						walk(x.Y, -sign, depth+1)
+						return
+					}
+				}
+			}
+		}
+		terms[role(e, v)] += sign
+	}
+	walk(v, 1, 0)
+	var names []string
+	for n, c := range terms {
+		if c != 0 {
+			names = append(names, n)
+		}
+	}
+	sort.Strings(names)
+	if len(names) == 0 {
+		return fmt.Sprintf("k%d", k)
+	}
+	if len(names) == 1 && terms[names[0]] == 1 && k == 0 {
+		return names[0]
+	}
+	out := "("
+	for i, n := range names {
+		c := terms[n]
+		switch {
+		case c == 1 && i == 0:
+			out += n
+		case c == 1:
+			out += "+" + n
+		case c == -1:
+			out += "-" + n
+		default:
+			out += fmt.Sprintf("%+d*%s", c, n)
+		}
+	}
+	if k > 0 {
+		out += fmt.Sprintf("+k%d", k)
+	} else if k < 0 {
+		out += fmt.Sprintf("-k%d", -k)
+	}
+	return out + ")"
 }
 
 func callRole(e paths.Event, x *ssa.Call) string {
